@@ -41,8 +41,10 @@ var c17Effect = map[int]gtfs.AlertEffect{
 	37: gtfs.ReducedService, 38: gtfs.ModifiedService, 39: gtfs.NoService, 40: gtfs.NoService,
 }
 
-var c17Stations = []string{"A27", "A28", "A2N", "L03", "E01", "R1S", "127", "a27", "ABS"}
-var c17Elevators = []string{"123", "1", "X9", "12 B", "", "700", "123"}
+// Station and elevator ids share a tight alphabet on purpose: many (output id, stop id) pairs then
+// concatenate to the same text although they are different pairs (e.g. elevator 7 at 2R5N vs elevator 72 at R5N).
+var c17Stations = []string{"A27", "A28", "A2N", "L03", "E01", "R1S", "127", "a27", "ABS", "2R5", "R5N", "12R", "2RN", "NNN", "1NN", "N12", "22N"}
+var c17Elevators = []string{"123", "1", "X9", "12 B", "", "700", "123", "7", "72", "12", "2", "N", "1N", "2R", "71"}
 
 type c17Alert struct {
 	entityID string
@@ -61,6 +63,15 @@ func c17Gen(r *core.Rand) (*gtfsrt.FeedMessage, []c17Alert) {
 	nSt := 1 + r.Intn(5)
 	stations := r.Perm(len(c17Stations))[:nSt]
 	nEl := 1 + r.Intn(3)
+	if r.Chance(1, 3) {
+		// overlap-heavy feed: only the tight-alphabet ids
+		nSt = 2 + r.Intn(4)
+		stations = stations[:0]
+		for _, j := range r.Perm(8)[:nSt] {
+			stations = append(stations, 9+j)
+		}
+		nEl = 2 + r.Intn(4)
+	}
 	used := map[string]bool{}
 	add := func(id string, a *gtfsrt.Alert, ci c17Alert) {
 		if used[id] && !ci.elevator {
@@ -79,6 +90,9 @@ func c17Gen(r *core.Rand) (*gtfsrt.FeedMessage, []c17Alert) {
 		if r.Chance(1, 6) {
 			el = core.Pick(r, c17Elevators)
 		}
+		if stations[0] >= 9 && nEl >= 2 {
+			el = c17Elevators[7+r.Intn(8)]
+		}
 		a := &gtfsrt.Alert{}
 		rgen.GenAlertBody(r, a)
 		// the wire informed entity of MTA elevator alerts is the platform
@@ -87,6 +101,33 @@ func c17Gen(r *core.Rand) (*gtfsrt.FeedMessage, []c17Alert) {
 			a.InformedEntity = append(a.InformedEntity, &gtfsrt.EntitySelector{RouteId: rgen.S("A")})
 		}
 		add(pl+"#EL"+el, a, c17Alert{elevator: true, station: st, platform: pl, elev: el})
+	}
+	if r.Chance(1, 4) {
+		// constructed pairs whose (output id, stop id) texts collide when glued together without a separator:
+		// elevator e at platform cXYN  vs  elevator e+c at station XYN;  elevator e at NNNN vs elevator e+N at NNN
+		e := core.Pick(r, []string{"7", "1", "", "12"})
+		var pairs [][2]c17Alert
+		s := string([]byte{"12AR"[r.Intn(4)], "2R5N"[r.Intn(4)], "5NR1"[r.Intn(4)]})
+		pairs = append(pairs, [2]c17Alert{
+			{elevator: true, station: s, platform: s + "N", elev: e},
+			{elevator: true, station: s[1:] + "N", platform: s[1:] + "N", elev: e + s[:1]},
+		})
+		z := core.Pick(r, []string{"NNN", "SSS"})
+		pairs = append(pairs, [2]c17Alert{
+			{elevator: true, station: z, platform: z + z[:1], elev: e},
+			{elevator: true, station: z, platform: z, elev: e + z[:1]},
+		})
+		for _, p := range pairs {
+			order := []int{0, 1}
+			if r.Bool() {
+				order = []int{1, 0}
+			}
+			for _, i := range order {
+				ci := p[i]
+				a := &gtfsrt.Alert{InformedEntity: []*gtfsrt.EntitySelector{{StopId: rgen.S(ci.platform)}}}
+				add(ci.platform+"#EL"+ci.elev, a, ci)
+			}
+		}
 	}
 	nOther := r.Intn(6)
 	for k := 0; k < nOther; k++ {
